@@ -212,6 +212,95 @@ def _import_ok(stmt, modname):
   return True
 
 
+_FLIP = {ast.Lt: ast.Gt, ast.Gt: ast.Lt, ast.LtE: ast.GtE, ast.GtE: ast.LtE,
+         ast.Eq: ast.Eq, ast.NotEq: ast.NotEq}
+
+
+def _is_constant(e):
+  return isinstance(e, ast.Constant) or (
+      isinstance(e, ast.UnaryOp) and isinstance(e.op, ast.USub) and
+      isinstance(e.operand, ast.Constant))
+
+
+def canon_compare(node):
+  """One orientation for single-operator comparisons: a constant operand goes
+  to the right; otherwise only < and <= are used and the operands of == / !=
+  are ordered by their text."""
+  if not (isinstance(node, ast.Compare) and len(node.ops) == 1 and
+          type(node.ops[0]) in _FLIP):
+    return node
+  l, r, op = node.left, node.comparators[0], node.ops[0]
+  flip = False
+  if _is_constant(l) != _is_constant(r):
+    flip = _is_constant(l)
+  elif isinstance(op, (ast.Gt, ast.GtE)):
+    flip = True
+  elif isinstance(op, (ast.Eq, ast.NotEq)):
+    flip = ast.unparse(l) > ast.unparse(r)
+  if not flip:
+    return node
+  new = ast.Compare(left=r, ops=[_FLIP[type(op)]()], comparators=[l])
+  return ast.copy_location(new, node)
+
+
+def cc(text):
+  """Canonical spelling of an expression given as text (for the tables of
+  accepted forms in the rules)."""
+  tree = ast.parse(text, mode='eval')
+
+  class C(ast.NodeTransformer):
+    def visit_Compare(self, node):
+      self.generic_visit(node)
+      return canon_compare(node)
+  return ast.unparse(ast.fix_missing_locations(C().visit(tree)).body)
+
+
+def _normalise_tree(tree):
+  """Canonical forms applied once at load time, so that every rule sees one
+  spelling of constructs that mean the same (positions are kept):
+    <numpy alias>.dot(a, b)            ->  a.dot(b)
+    if not c: A else: B                ->  if c: B else: A
+    a > b -> b < a; 0 < x -> x > 0     (see canon_compare)
+  """
+  np_names = set()
+  for n in ast.walk(tree):
+    if isinstance(n, ast.Import):
+      for a in n.names:
+        if a.name == 'numpy':
+          np_names.add(a.asname or 'numpy')
+
+  class N(ast.NodeTransformer):
+    def visit_Call(self, node):
+      self.generic_visit(node)
+      f = node.func
+      if isinstance(f, ast.Attribute) and f.attr == 'dot' and \
+              isinstance(f.value, ast.Name) and f.value.id in np_names and \
+              len(node.args) == 2 and not node.keywords and \
+              not any(isinstance(a, ast.Starred) for a in node.args):
+        new = ast.Call(
+            func=ast.Attribute(value=node.args[0], attr='dot',
+                               ctx=ast.Load()),
+            args=[node.args[1]], keywords=[])
+        ast.copy_location(new, node)
+        ast.copy_location(new.func, node)
+        return new
+      return node
+
+    def visit_Compare(self, node):
+      self.generic_visit(node)
+      return canon_compare(node)
+
+    def visit_If(self, node):
+      self.generic_visit(node)
+      if isinstance(node.test, ast.UnaryOp) and \
+              isinstance(node.test.op, ast.Not) and node.orelse:
+        node.test, node.body, node.orelse = \
+            node.test.operand, node.orelse, node.body
+      return node
+  N().visit(tree)
+  ast.fix_missing_locations(tree)
+
+
 class Repo:
   def __init__(self, root=None):
     self.root = root or REPO
@@ -234,6 +323,8 @@ class Repo:
       if stem == '__init__':
         m.short = '__init__'
       self.modules[name] = m
+    for m in self.modules.values():
+      _normalise_tree(m.tree)
     for m in self.modules.values():
       self._scan(m, m.tree.body)
     for m in self.modules.values():
